@@ -402,13 +402,34 @@ Fixpoint mval_eqb (fuel : nat) (a b : mval) : bool :=
       end
   end.
 
+(* long bodies, written down by a rule rather than as a literal: [n] items (or attributes) numbered from 0.
+   The 16-bit / 32-bit length headers are crossed at 65536 entries; the encoder's output is compared by
+   length and a position-sensitive checksum (sum of the running sums) (the model's decoder takes [len] of the remaining input at every step, so it
+   is quadratic on such inputs and is not run on them; the theorem covers it, the implementation's reader is
+   compared with the value it was given on the Rust side). *)
+Fixpoint upto (k : nat) (i : N) : list N := match k with O => [] | S k => i :: upto k (N.succ i) end.
+Definition big_value (kind n : N) : mval :=
+  let idx := upto (N.to_nat n) 0 in
+  let small (i : N) := VS (MPos (i mod 300)) in
+  match kind with
+  | 0 => VR [] (map (fun i => (None, small i)) idx)
+  | 1 => VR [] (map (fun i => (Some (VS (MPos i)), small i)) idx)
+  | 2 => VR [] (map (fun i => if i mod 2 =? 0 then (Some (VS (MPos i)), small i) else (None, small i)) idx)
+  | 3 => VR (map (fun i => ([97], VS MNil)) idx) []
+  | 4 => VS (MStr (map (fun i => 97 + i mod 26) idx))
+  | _ => VS (MBin (map (fun i => i mod 256) idx))
+  end.
+Definition cksum (b : bytes) : N := snd (fold_left (fun (h : N * N) x => let a := fst h + x in (a, snd h + a)) b (0, 0)).
+
 Inductive rcase :=
 | RCaseEnc (v : mval) (bytes : bytes)                 (* what the writer produced for a model value *)
-| RCaseDec (b : bytes) (status : N) (v : option mval).  (* what the reader made of bytes: 0 value, 1 incomplete, 2 error *)
+| RCaseDec (b : bytes) (status : N) (v : option mval)   (* what the reader made of bytes: 0 value, 1 incomplete, 2 error *)
+| RCaseBig (kind n : N) (length sum : N).             (* the writer on [big_value kind n]: length and checksum *)
 
 Definition mpr_corr_bad (cs : list (N * rcase)) : list N :=
   map fst (filter (fun c => match snd c with
                             | RCaseEnc v bs => negb (bytes_eqb (enc v) bs)
+                            | RCaseBig k n l h => let b := enc (big_value k n) in negb ((len b =? l) && (cksum b =? h))
                             | RCaseDec b st v =>
                                 match dec 40 b, st, v with
                                 | VOk x _, 0, Some y => negb (mval_eqb 40 x y)
